@@ -50,10 +50,10 @@ func init() { register("C16", propC16) }
 
 const c16Wait = 5 * time.Second
 
-// c16CodeReadd mirrors Driver/C16.lean `codeReadd`: false = the code as it is (D52 open); set both to true when
-// fixes/D52.diff is applied (a restart then resumes shards that have a checkpointed position but were no longer tracked
-// by the splitter, and the harness's own bookkeeping must not count them as finished).
-const c16CodeReadd = false
+// c16CodeReadd mirrors Driver/C16.lean `codeReadd`: the code resumes shards that have a checkpointed position but were
+// no longer assigned when the splitter's part of the checkpoint was taken (D52 repaired, /repo c7455f1), so the
+// harness's own bookkeeping must not count them as finished after a restore.
+const c16CodeReadd = true
 
 // c16Stuck is a last-resort bound for waits that always end promptly unless the code under test is stuck.
 const c16Stuck = 6 * time.Second
@@ -520,6 +520,99 @@ func joinInts(xs []int, sep string) string {
 		s[i] = strconv.Itoa(x)
 	}
 	return strings.Join(s, sep)
+}
+
+// ---------------------------------------------------------------------------------------------------------------
+// D61: Checkpoint() concurrently with an assignment of the real splitter loop (hook-free stress; the hard obligation
+// is the structural fact C16.checkpoint_is_one_locked_read, this op only adds a chance to see a regression concretely)
+
+// implCkRace: op `stress <roots> <rounds>`. Per round a root shard is split, its children are discovered (withheld),
+// then the shard is reported finished — the loop hands out the children and tracks them — while another goroutine
+// takes checkpoints. A checkpoint whose LastAssignedShardId covers the children must list them.
+func implCkRace(c lib.Case) []string {
+	out := make([]string, 0, len(c.Ops))
+	for _, op := range c.Ops {
+		f := strings.Fields(op)
+		if f[0] != "stress" || len(f) != 3 {
+			out = append(out, "bad-op")
+			continue
+		}
+		roots, _ := strconv.Atoi(f[1])
+		rounds, _ := strconv.Atoi(f[2])
+		out = append(out, ckRaceOnce(roots, min(rounds, roots)))
+	}
+	return out
+}
+
+func ckRaceOnce(roots, rounds int) string {
+	e, err := newKinEnv(roots, 1)
+	defer e.close()
+	if err != nil {
+		return "setup-error " + err.Error()
+	}
+	if s := e.start(); c16Noisy(s) || strings.HasPrefix(s, "error") {
+		return "setup-error " + s
+	}
+	w := new(big.Int).Div(c16Max, big.NewInt(int64(roots)))
+	ctx := context.Background()
+	next := roots
+	for round := 0; round < rounds; round++ {
+		parent := c16ShardID(round)
+		at := new(big.Int).Mul(w, big.NewInt(int64(round)))
+		at.Add(at, new(big.Int).Rsh(w, 1))
+		ats := at.String()
+		if _, err := e.client.SplitShard(ctx, &awskinesis.SplitShardInput{StreamARN: &e.arn, ShardToSplit: &parent, NewStartingHashKey: &ats}); err != nil {
+			return "setup-error " + err.Error()
+		}
+		if st := e.sendTick(); st != "" {
+			return st
+		}
+		if s := e.settle(); c16Noisy(s) {
+			return s
+		}
+		children := []string{c16ShardID(next), c16ShardID(next + 1)}
+		next += 2
+		stop := make(chan struct{})
+		bad := make(chan string, 1)
+		sp := e.splitter
+		go func() {
+			for {
+				select {
+				case <-stop:
+					bad <- ""
+					return
+				default:
+				}
+				var st kinesispb.SplitterState
+				if gproto.Unmarshal(sp.Checkpoint(), &st) != nil {
+					continue
+				}
+				if st.LastAssignedShardId >= children[1] {
+					has := map[string]bool{}
+					for _, sh := range st.AssignedShards {
+						has[sh.ShardId] = true
+					}
+					if !has[children[0]] || !has[children[1]] {
+						bad <- fmt.Sprintf("checkpoint with LastAssignedShardId=%d does not list the assigned shards %d,%d", c16ShardNum(st.LastAssignedShardId), c16ShardNum(children[0]), c16ShardNum(children[1]))
+					} else {
+						bad <- ""
+					}
+					return
+				}
+			}
+		}()
+		sp.NotifySplitsFinished("r0", []string{parent})
+		s := e.settle()
+		close(stop)
+		verdict := <-bad
+		if c16Noisy(s) {
+			return s
+		}
+		if verdict != "" {
+			return verdict
+		}
+	}
+	return "ok"
 }
 
 // ---------------------------------------------------------------------------------------------------------------
@@ -2475,7 +2568,7 @@ func propC16() *lib.Prop {
 	return &lib.Prop{
 		ID:   "C16",
 		Corr: "Model/Splits.lean ↔ kinesis.SourceSplitter+SplitTracker (against kinesisfake), uniformlyAssignShard, embedded/httpapi splitters, sliceu.Partition, SourceRunner.processEvents (barrier cut with a scripted reader)",
-		Rule: "cases: kin = op sequences (split/merge of the stream, discovery ticks, finish notifications in any order, checkpoint, restore) on the real Kinesis splitter; cut = assign/read/barrier scripts (reads of up to 2000 records; checkpoint requests arriving inside a read: before/after the cursors move and while its records are being emitted, triggered by the k-th record arriving downstream) on the real SourceRunner with a scripted reader; job = real jobs.Job + snapshots.Store + httpapi splitter with a storage location that holds a snapshot write until the replacement operator is being deployed (checkpoint id the operators restore vs position the split resumes from); kread = the real Kinesis SourceReader (kinesisfake) under the real ReadSourceChannel and SourceRunner, one gated ReadEvents per op, GetRecords requests failing with a retryable throttling error at chosen points, positions at barriers vs records received ahead of them; ecut = the real embedded SourceReader free-running under the real SourceRunner with barriers at random moments (only the statement of cursor_matches_cut is observed); misc = Partition/embedded/httpapi/uniformlyAssignShard blocks. non-trivial = kin case with a restore from a checkpoint after the stream was resharded, cut case with a barrier after a read, or misc block",
+		Rule: "cases: kin = op sequences (split/merge of the stream, discovery ticks, finish notifications in any order, checkpoint, restore) on the real Kinesis splitter; cut = assign/read/barrier scripts (reads of up to 2000 records; checkpoint requests arriving inside a read: before/after the cursors move and while its records are being emitted, triggered by the k-th record arriving downstream) on the real SourceRunner with a scripted reader; job = real jobs.Job + snapshots.Store + httpapi splitter with a storage location that holds a snapshot write until the replacement operator is being deployed (checkpoint id the operators restore vs position the split resumes from); kread = the real Kinesis SourceReader (kinesisfake) under the real ReadSourceChannel and SourceRunner, one gated ReadEvents per op, GetRecords requests failing with a retryable throttling error at chosen points, positions at barriers vs records received ahead of them; ckrace = Checkpoint() of the real splitter taken concurrently with its loop handing out shards (stress, D61); ecut = the real embedded SourceReader free-running under the real SourceRunner with barriers at random moments (only the statement of cursor_matches_cut is observed); misc = Partition/embedded/httpapi/uniformlyAssignShard blocks. non-trivial = kin case with a restore from a checkpoint after the stream was resharded, cut case with a barrier after a read, or misc block",
 		NumCases: func(tier string) int {
 			if tier == "thorough" {
 				return 8000
@@ -2490,8 +2583,11 @@ func propC16() *lib.Prop {
 			// D16d (repaired): LastAssigned never moves backwards, a finished shard is not listed again
 			cs = append(cs, lib.Case{Header: "M C16 kin 2 2", Tags: []string{"kin", "fixed-D16d"},
 				Ops: []string{"start", "split 0 " + mid0, "split 1 " + mid1, "tick", "finish 1", "finish 5", "finish 0", "tick", "tick", "chk"}})
-			// D52 (open): a shard finishes between its runner's barrier and the splitter's part of the checkpoint
-			cs = append(cs, lib.Case{Header: "M C16 kin 1 1", Tags: []string{"kin", "witness-D52", "kin-restore-lineage", "kin-state-of-finished"},
+			// D61 (repaired): checkpoints taken while the loop hands out shards are consistent
+			cs = append(cs, lib.Case{Header: "M C16 ckrace", Tags: []string{"ckrace", "fixed-D61"}, Ops: []string{"stress 300 40"}})
+			// D52 (repaired): a shard finishes between its runner's barrier and the splitter's part of the checkpoint;
+			// the restart resumes it from the reported position and its children wait
+			cs = append(cs, lib.Case{Header: "M C16 kin 1 1", Tags: []string{"kin", "fixed-D52", "kin-restore-lineage", "kin-state-of-finished"},
 				Ops: []string{"start", "split 0 100", "tick", "finish 0", "ckpt 0=5", "restore", "chk", "finish 0", "tick", "chk"}})
 			// D16c (open): withheld shards below LastAssigned are lost by a restore
 			cs = append(cs, lib.Case{Header: "M C16 kin 2 2", Tags: []string{"kin", "witness-D16c", "kin-restore-lineage"},
@@ -2558,6 +2654,8 @@ func propC16() *lib.Prop {
 				return implKin(c, a[0], a[1])
 			case mode == "cut" && len(a) == 3:
 				return c16Retry(func() []string { return implCut(c, a[0], a[1], a[2]) })
+			case mode == "ckrace":
+				return c16Retry(func() []string { return implCkRace(c) })
 			case mode == "job":
 				return c16Retry(func() []string { return implJob(c) })
 			case mode == "kread" && len(a) == 5:
